@@ -30,3 +30,4 @@ func WithCancel(p Context) (Context, CancelFunc)                   { return mcrt
 func WithCancelCause(p Context) (Context, CancelCauseFunc)         { return mcrt.WithCancelCause(p) }
 func WithTimeout(p Context, d time.Duration) (Context, CancelFunc) { return mcrt.WithTimeout(p, d) }
 func WithDeadline(p Context, t time.Time) (Context, CancelFunc)    { return mcrt.WithDeadline(p, t) }
+func AfterFunc(c Context, f func()) (stop func() bool)             { return mcrt.AfterFuncCtx(c, f) }
